@@ -62,8 +62,8 @@ _S = {"ctx": None, "srot": None, "reg": {}}
 def plan(tier):
     if tier == "quick":
         return dict(n_cases=1200, shards=1, classes=CLASSES, timeout_s=600,
-                    min_evals={"angdist": 8000, "cone": 4000, "inplane": 5500, "cone_inplane": 3200, "compare": 2800,
-                               "e2n": 2000, "n2e": 800, "viz": 6000, "symmetry": 700, "zero_equal": 2800, "invariance": 1400,
+                    min_evals={"angdist": 10000, "cone": 8000, "inplane": 10000, "cone_inplane": 7500, "compare": 4400,
+                               "e2n": 2000, "n2e": 800, "viz": 6000, "symmetry": 700, "zero_equal": 7500, "invariance": 1400,
                                "triangle": 700, "dispatch": 2800, "n2e_roundtrip": 800})
     return dict(n_cases=24000, shards=16, classes=CLASSES, timeout_s=3000,
                 min_evals={"angdist": 150000, "cone": 75000, "inplane": 100000, "cone_inplane": 60000, "compare": 50000,
